@@ -260,6 +260,7 @@ inductive Step where
   | unescape (key : Nat)
   | redactEmail (key : Nat)
   | parseTime (key : Nat)
+  | opaque (key : Nat) (dests : List Nat)   -- `replace` / `extract`: Go regexp is not modelled; only verification / construction are (C16)
 
 /-- sampler counters `(matched, dropped)` per `drop` step -/
 abbrev XState := List (Nat × Nat × Nat)
@@ -324,6 +325,7 @@ def runStep (st : XState) (r : Rec) : Step → GoM (Res × Rec × XState)
     match Time.parse (r.get key) with
     | .ok s n => .ok (.pass, { r with sec := s, nsec := n }, st)
     | .err => .ok (.pass, r, st)
+  | .opaque _ _ => .ok (.pass, r, st)     -- not used in correspondence runs
 
 /-- `bsupport.RunTransforms`: stop at the first DROP -/
 def runSteps (st : XState) (r : Rec) : List Step → GoM (Res × Rec × XState)
